@@ -308,6 +308,11 @@ def execute(mat, ctx):
                 f["fid"] = "%s_feat%04d" % (sp["id"], j)          # identifiers as annotation pipelines assign them
         sp.pop("refs", None)
         specs.append(sp)
+    # a between-bases annotation (GenBank 7^8, a cut-site mark) exactly where each module's upstream overhang begins
+    for sp in specs[1:]:
+        fs0 = sp["built"]["frag_start_unrotated"]
+        if sp["built"]["rot_left"] == 0:
+            sp["features"] = sp["features"] + [{"type": "misc_feature", "parts": [[fs0, fs0, 1]], "quals": {"uid": [sp["id"] + ".cutmark"]}}]
     # a vector annotation that runs from the last bases of the backbone into the downstream fusion site: it is not inside the
     # retained fragment, so no product carries it - at any origin
     vsp = specs[0]
@@ -344,7 +349,7 @@ def execute(mat, ctx):
 
         base_f = annotated([0] * len(specs), "string")
         for trial in range(3):
-            rots = [rf.choice([rf.randrange(len(sp["seq"])), rf.randrange(min(len(sp["seq"]), width)), 0,
+            rots = [rf.choice([rf.randrange(len(sp["seq"])), rf.randrange(min(len(sp["seq"]), width)), 0, sp["built"]["frag_start_unrotated"] % len(sp["seq"]),
                                (len(sp["seq"]) - rf.randrange(1, 6)) % len(sp["seq"]), (len(sp["seq"]) - rf.randrange(1, 6)) % len(sp["seq"])]) for sp in specs]
             for how in ("string", "operator"):
                 ctx.count("evaluations")
